@@ -178,6 +178,11 @@ impl FramebufferTag {
                 let palette = {
                     // Ensure the slice can be created without causing UB
                     assert_eq!(mem::size_of::<FramebufferColor>(), 3);
+                    assert!(
+                        num_colors as usize * mem::size_of::<FramebufferColor>()
+                            <= self.buffer.len() - reader.off,
+                        "Embedded color palette should fit into the framebuffer tag"
+                    );
 
                     unsafe {
                         slice::from_raw_parts(
